@@ -12,6 +12,7 @@ namespace Drv
 
 def behaviourOf : String → Option Tacd.Behaviour
   | "connect-close" => some .connectClose
+  | "connect-reset-burst" => some .connectClose
   | "garbage" => some .garbage
   | "plain-http" => some .plainHttp
   | "tls-no-alpn" => some .tlsNoAlpn
